@@ -218,6 +218,10 @@ class History:
                 if r[f] != r[f]:
                     r[f] = 0.5
         ws = [self.rng.choice([1.0, 1.0, 0.5, 2.0, 0.0, 0.25, 3.0]) for _ in range(n)]
+        if self.rng.random() < 0.12:
+            # nearly but not exactly unit weights (dyadic: sums stay exact): a batch that is not a unit-weight batch
+            ws = [self.rng.choice([1.0 + 2.0**-18, 1.0 - 2.0**-19, 1.0 + 2.0**-30]) for _ in range(n)]
+            self.count("fillnp_near_unit_weights")
         scalar = None
         if self.scalar_np_ok and self.rng.random() < 0.35:
             # scalar (or omitted) weight: only for trees that cannot meet the C03 known finding about a Count
